@@ -128,7 +128,7 @@ theorem handle_call_routed :
     Gen.Netref.handlerTable.lookup Gen.Netref.handleCall = some "_handle_call"
     ∧ Gen.Netref.handlerArity.lookup Gen.Netref.handleCall = some (2, 3) := by decide
 
-/-- the proxy's `__call__` issues `HANDLE_CALL` with `(args, tuple(kwargs.items()))` (AST of `_make_method`) -/
+/-- the proxy's `__call__` issues `HANDLE_CALL` with `(args, tuple(kwargs.items()))` (observed by running the method `_make_method` makes against a recording connection) -/
 theorem call_shape :
     Gen.Netref.makeMethodShapes.lookup "__call__" = some ("(*,**)", "syncreq", "self", "HANDLE_CALL", ["$*", "tuple(items($**))"]) := by
   decide
